@@ -16,7 +16,7 @@ def _subsets(n, minimum=0):
     return [c for k in range(minimum, n + 1) for c in itertools.combinations(range(n), k)]
 
 
-def _setup(src, n, nconf, strategies=STRATEGIES, same_app=True):
+def _setup(src, n, nconf, strategies=STRATEGIES, same_app=True, states=False):
     from supvisors.ttypes import ConciliationStrategies, RunningFailureStrategies
     strat = src.pick('strategy', list(strategies))
     core = FC.operational(n, {'conciliation_strategy': strat})
@@ -32,7 +32,10 @@ def _setup(src, n, nconf, strategies=STRATEGIES, same_app=True):
         p = core.context.applications[group].processes[name]
         for i in where:
             core.process_event(ids[i], group, name, PS.STARTING)
-            core.process_event(ids[i], group, name, PS.RUNNING)
+            # "running" in the statement is STARTING, BACKOFF or RUNNING: each copy is in any of them
+            st = src.pick(f'state{k}_{i}', ['RUNNING', 'STARTING', 'BACKOFF']) if states else 'RUNNING'
+            if st != 'STARTING':
+                core.process_event(ids[i], group, name, getattr(PS, st))
         ups = {}
         for i in where:
             u = src.int(f'uptime{k}_{i}', 0, 100000)
@@ -80,10 +83,10 @@ def _expected_stops(strat, procs, ids):
 
 
 @rigged
-def conciliate(src, n=3, nconf=2, strategies=STRATEGIES, same_app=True, closure=True):
+def conciliate(src, n=3, nconf=2, strategies=STRATEGIES, same_app=True, closure=True, states=False):
     """H05b/c/d: the real OperationState / ConciliationState / conciliate_conflicts / strategies / Stopper / Starter /
     RunningFailureHandler from a Master in OPERATION with symbolic duplicates"""
-    core, strat, managed, procs = _setup(src, n, nconf, strategies, same_app)
+    core, strat, managed, procs = _setup(src, n, nconf, strategies, same_app, states)
     ids = core.ids
     sim = Sim(core)
     conflicts = [p for p in procs if len(p['where']) >= 2]
@@ -193,10 +196,14 @@ HARNESSES = [
     Harness('H05-2', conciliate, quick={'n': 2, 'nconf': 2}, thorough={'n': 3, 'nconf': 2},
             reach=('conflict', 'closed'), timeout=(120, 1200),
             doc='two simultaneous conflicts in the same application'),
+    Harness('H05-states', conciliate, quick={'n': 2, 'nconf': 1, 'states': True},
+            thorough={'n': 3, 'nconf': 2, 'states': True}, reach=('conflict', 'closed'), timeout=(120, 1200),
+            doc='every copy in STARTING, BACKOFF or RUNNING (the three "running" states of the statement)'),
     Harness('H05-2apps', conciliate, quick=None, thorough={'n': 2, 'nconf': 2, 'same_app': False},
             reach=('conflict', 'closed'), timeout=(0, 900), doc='two conflicts in two applications'),
 ]
-BOUNDS = {'quick': {'instances': '3 (one conflict) / 2 (two conflicts)', 'strategies': 6, 'uptimes': 'symbolic'},
+BOUNDS = {'quick': {'instances': '3 (one conflict) / 2 (two conflicts)', 'strategies': 6, 'uptimes': 'symbolic',
+                    'copy_states': 'STARTING / BACKOFF / RUNNING per copy (H05-states, 2 instances, 1 conflict)'},
           'thorough': {'instances': 3, 'conflicts': 2}}
 OUTSIDE = ['more than 2 simultaneous conflicts, N > 3', 'a new conflict appearing while the stops are acknowledged '
            '(thorough tier only when listed)', 'RUNNING_FAILURE + SHUTDOWN / RESTART program strategies']
